@@ -122,6 +122,7 @@ type job struct {
 	Known       []knownFinding `json:"known"`
 	Current     string         `json:"current"`
 	WatchdogS   int            `json:"watchdog_s"`
+	StartI      int            `json:"start_i"`
 }
 
 type workerResult struct {
@@ -250,6 +251,8 @@ type summary struct {
 	Samples     []json.RawMessage `json:"samples"`
 	Failures    int               `json:"failures"`
 	KnownSeen   map[string]int    `json:"known_seen"`
+	NextI       int               `json:"next_i"`
+	Poisoned    bool              `json:"poisoned"`
 }
 
 type propMeta struct {
@@ -432,10 +435,40 @@ func explore(prop, tier string) int {
 		wg.Add(1)
 		go func(w int) {
 			defer wg.Done()
-			j := job{Mode: "explore", Property: prop, Tier: tier, VerifSeed: seed, Worker: w, Workers: workers, BudgetS: budget,
-				MaxRuns: maxRuns, MaxFailures: 2, DetEvery: 25, Known: openKnown, Out: filepath.Join(td, fmt.Sprintf("w%d.jsonl", w)),
-				Hashes: filepath.Join(td, fmt.Sprintf("w%d.hashes", w)), Current: filepath.Join(td, fmt.Sprintf("w%d.current", w))}
-			results[w] = runWorker(j, 1, time.Duration(budget*float64(time.Second))+10*time.Minute)
+			// a worker that stops early only because a run (a known finding) left goroutines behind
+			// is succeeded by a fresh process that continues its sequence of runs
+			t0 := time.Now()
+			startI := 0
+			var acc workerResult
+			for gen := 0; ; gen++ {
+				left := budget - time.Since(t0).Seconds()
+				if gen > 0 && left < 2 {
+					break
+				}
+				j := job{Mode: "explore", Property: prop, Tier: tier, VerifSeed: seed, Worker: w, Workers: workers, BudgetS: left,
+					MaxRuns: maxRuns, MaxFailures: 2, DetEvery: 25, Known: openKnown, Out: filepath.Join(td, fmt.Sprintf("w%d.g%d.jsonl", w, gen)),
+					Hashes: filepath.Join(td, fmt.Sprintf("w%d.g%d.hashes", w, gen)), Current: filepath.Join(td, fmt.Sprintf("w%d.current", w)), StartI: startI}
+				r := runWorker(j, 1, time.Duration(left*float64(time.Second))+10*time.Minute)
+				acc.lines = append(acc.lines, r.lines...)
+				acc.raw = append(acc.raw, r.raw...)
+				acc.exit, acc.stderr = r.exit, r.stderr
+				again := false
+				if r.exit == 0 {
+					for i, m := range r.lines {
+						if typ(m) == "summary" {
+							var s summary
+							json.Unmarshal([]byte(r.raw[i]), &s)
+							if s.Poisoned && s.Failures == 0 && s.NextI > startI {
+								again, startI = true, s.NextI
+							}
+						}
+					}
+				}
+				if !again {
+					break
+				}
+			}
+			results[w] = acc
 		}(w)
 	}
 	wg.Wait()
@@ -524,8 +557,9 @@ func explore(prop, tier string) int {
 		}
 	}
 	distinct := map[uint64]bool{}
-	for w := 0; w < workers; w++ {
-		b, err := os.ReadFile(filepath.Join(td, fmt.Sprintf("w%d.hashes", w)))
+	hashFiles, _ := filepath.Glob(filepath.Join(td, "w*.hashes"))
+	for _, hf := range hashFiles {
+		b, err := os.ReadFile(hf)
 		if err != nil {
 			continue
 		}
